@@ -3,6 +3,7 @@ use crate::Check;
 pub mod c02;
 pub mod c05;
 pub mod c11;
+pub mod c12;
 pub mod c14;
 pub mod c15;
 
@@ -12,6 +13,7 @@ pub fn get(id: &str) -> Option<Box<dyn Check>> {
         "C11" => Some(Box::new(c11::C11)),
         "C15" => Some(Box::new(c15::C15)),
         "C14" => Some(Box::new(c14::C14)),
+        "C12" => Some(Box::new(c12::C12)),
         "C05" => Some(Box::new(c05::C05)),
         _ => None,
     }
